@@ -1,0 +1,84 @@
+//go:build verif
+
+package type1
+
+import (
+	. "github.com/cloudflare/pat-go/internal/vspec"
+	"github.com/cloudflare/pat-go/tokens"
+)
+
+var _ = tokens.SpecTokenInput
+
+// struct { uint16 token_type = 0x0001; uint8 truncated_token_key_id; uint8 blinded_msg[Ne]; } TokenRequest  (RFC 9578 section 5.1)
+//
+//@ spec
+func specEncT1Req(keyID uint8, blinded string) string {
+	return U16(BasicPrivateTokenType) + B1(keyID) + blinded
+}
+
+//@ func UnmarshalPrivateToken(data []byte) (token tokens.Token, err error)
+//@ props C01 C03 C04 C16
+//@ ensures (err == nil) == (len(data) >= 98+Nk)
+//@ ensures err == nil ==> token.TokenType == uint16(data[0])*256+uint16(data[1])
+//@ ensures err == nil ==> sameslice(token.Nonce, data[2:34]) && sameslice(token.Context, data[34:66]) && sameslice(token.KeyID, data[66:98]) && sameslice(token.Authenticator, data[98:98+Nk])
+//@ assigns none
+//@ alloc 0
+//@ end
+
+//@ func (r *BasicPrivateTokenRequest) Marshal() (res []byte)
+//@ props C01 C04 C16
+//@ safety C03 C04
+//@ requires r.raw == nil || string(r.raw) == specEncT1Req(r.TokenKeyID, string(r.BlindedReq))
+//@ ensures string(res) == specEncT1Req(r.TokenKeyID, string(r.BlindedReq))
+//@ ensures sameslice(res, r.raw) && r.raw != nil
+//@ ensures r.TokenKeyID == old(r.TokenKeyID) && sameslice(r.BlindedReq, old(r.BlindedReq))
+//@ assigns r.raw
+//@ end
+
+//@ func (r *BasicPrivateTokenRequest) Unmarshal(data []byte) (ok bool)
+//@ props C01 C03 C04 C16
+//@ ensures ok == (len(data) >= 3+Ne && data[0] == 0 && data[1] == 1)
+//@ ensures ok ==> r.TokenKeyID == data[2] && sameslice(r.BlindedReq, data[3:3+Ne])
+//@ ensures ok ==> (r.raw == nil || string(r.raw) == specEncT1Req(r.TokenKeyID, string(r.BlindedReq)))
+//@ assigns r.TokenKeyID, r.BlindedReq, r.raw
+//@ alloc 0
+//@ end
+
+// Decoding the encoding of a well-formed request (a blinded element of Ne bytes) returns it,
+// whatever the receiving object held before.
+//
+//@ lemma props C04
+func lemmaT1RequestRoundTrip(src, dst *BasicPrivateTokenRequest) {
+	Vassume(src != nil && dst != nil && src != dst)
+	Vassume(len(src.BlindedReq) == Ne && src.raw == nil)
+	enc := src.Marshal()
+	ok := dst.Unmarshal(enc)
+	Vassert(ok)
+	Vassert(dst.TokenKeyID == src.TokenKeyID && string(dst.BlindedReq) == string(src.BlindedReq))
+}
+
+// Whenever the decoder accepts b: the canonical encoding of the decoded value is no longer
+// than b, is a prefix of b, is what Marshal returns afterwards (even on a reused object) and
+// decodes to the same value.
+//
+//@ lemma props C04
+func lemmaT1RequestReencode(r, r2 *BasicPrivateTokenRequest, b []byte) {
+	Vassume(r != nil && r2 != nil && r != r2)
+	in := string(b)
+	ok := r.Unmarshal(b)
+	Vassume(ok)
+	id, blinded := r.TokenKeyID, string(r.BlindedReq)
+	enc := r.Marshal()
+	Vassert(len(enc) <= len(b) && string(enc) == in[:len(enc)])
+	Vassert(string(enc) == specEncT1Req(id, blinded))
+	ok2 := r2.Unmarshal(enc)
+	Vassert(ok2 && r2.TokenKeyID == id && string(r2.BlindedReq) == blinded)
+}
+
+// A type-1 decoder rejects every message tagged with another token type.
+//
+//@ lemma props C04
+func lemmaT1RejectsOtherTypes(r *BasicPrivateTokenRequest, b []byte) {
+	Vassume(r != nil && len(b) >= 2 && (b[0] != 0 || b[1] != 1))
+	Vassert(!r.Unmarshal(b))
+}
